@@ -920,8 +920,66 @@ pub fn sealable(d: &Desc, v: &Value) -> bool {
         }
         (Desc::Struct { fields, .. }, _) => fields.iter().zip(v.fields()).all(|(f, x)| sealable(f, x)),
         (Desc::Enum { variants, .. }, Value::Var(i, f)) => variants[*i].iter().zip(f.iter()).all(|(d, x)| sealable(d, x)),
+        // more elements / string bytes than the length type can count
+        (Desc::Vec { elem, len }, Value::Seq(items)) => elem.size() == 0 || items.len() as u128 <= len.max(),
+        (Desc::Str { len }, Value::Str(s)) => s.len() as u128 <= len.max(),
         _ => true,
     }
+}
+
+/// Turn `v` into a value whose content cannot be represented whatever the buffer: the FlatVec / FlatString in tail
+/// position (directly, as the last field of an unsized struct / enum variant, or in the last item of a FlexVec) gets more
+/// elements than its one-byte length type can count.  `None` when the shape has no such container.
+pub fn make_overlong(d: &Desc, v: &Value, rng: &mut Rng) -> Option<Value> {
+    match (d, v) {
+        (Desc::Vec { elem, len }, Value::Seq(items)) if len.max() <= 255 && elem.size() > 0 && elem.size() <= 16 => {
+            let n = [256usize, 257, 300][rng.below(3) as usize];
+            let mut it = items.clone();
+            while it.len() < n {
+                it.push(gen_value(elem, rng, 8));
+            }
+            Some(Value::Seq(it))
+        }
+        (Desc::Str { len }, Value::Str(s)) if len.max() <= 255 => {
+            let n = [256usize, 257, 300][rng.below(3) as usize];
+            let mut s = s.clone();
+            while s.len() < n {
+                let p = STR_POOL[rng.below(STR_POOL.len() as u64) as usize];
+                s.push_str(if p.is_empty() { "x" } else { p });
+            }
+            Some(Value::Str(s))
+        }
+        (Desc::Struct { fields, sized: false, .. }, Value::Struct(f)) => {
+            let last = fields.len() - 1;
+            let nv = make_overlong(&fields[last], &f[last], rng)?;
+            let mut f = f.clone();
+            f[last] = nv;
+            Some(Value::Struct(f))
+        }
+        (Desc::Enum { variants, sized: false, .. }, Value::Var(i, f)) if !f.is_empty() => {
+            let last = f.len() - 1;
+            let nv = make_overlong(&variants[*i][last], &f[last], rng)?;
+            let mut f = f.clone();
+            f[last] = nv;
+            Some(Value::Var(*i, f))
+        }
+        (Desc::Flex { item, .. }, Value::Seq(items)) => {
+            let mut items = items.clone();
+            if items.is_empty() {
+                items.push(smallest_value(item));
+            }
+            let last = items.len() - 1;
+            items[last] = make_overlong(item, &items[last], rng)?;
+            Some(Value::Seq(items))
+        }
+        _ => None,
+    }
+}
+
+/// Bytes that would hold all the content of an over-long value if its length were representable (a buffer of this
+/// size rules out "no room" as the reason for the refusal).
+pub fn overlong_room(d: &Desc, v: &Value) -> usize {
+    content_bound(d, v) + 4 * d.align() + 64
 }
 
 /// Extent (reference for `size()`) of `v` encoded canonically: smallest n that holds it.
